@@ -51,6 +51,10 @@ def combinators():
         "GridFixed": PS.Grid(PS.MultiDigit(3, 3), height=1, width=2),
         "Rooms": PS.Rooms(), "RoomsSkip": PS.Rooms(skip_on_error=True, allow_redundant_border=True),
         "ValuedRooms": PS.ValuedRooms(PS.OneOf(PS.HexInt(), sp)),
+        "TuplVR": PS.Tupl(PS.FixStr("f"), PS.ValuedRooms(PS.OneOf(PS.HexInt(), sp))),      # ValuedRooms not at offset 0
+        "SeqVR": PS.Seq(PS.ValuedRooms(PS.OneOf(PS.HexInt(), sp)), 2),
+        "GridIntSpaces0": PS.Grid(PS.IntSpaces(0, 5, 5)),                                   # the blank value is a legal number
+        "SeqIntSpaces0": PS.Seq(PS.IntSpaces(0, 4, 2), 3),
     }
 
 
@@ -99,7 +103,8 @@ def run_url(name, texts, h, w, make_url=None):
     return n_none, n_ve, out
 
 
-SINGLE_ITEM = {"HexInt", "DecInt", "Dict", "OneOfSingle", "Tupl", "Seq", "Grid", "GridFixed", "Rooms", "RoomsSkip", "ValuedRooms"}
+SINGLE_ITEM = {"HexInt", "DecInt", "Dict", "OneOfSingle", "Tupl", "Seq", "Grid", "GridFixed", "Rooms", "RoomsSkip", "ValuedRooms",
+               "TuplVR", "SeqVR", "GridIntSpaces0", "SeqIntSpaces0"}
 
 
 def run_comb(name, texts, h, w, offsets):
